@@ -342,15 +342,21 @@ def run(ctx):
     def tree_case(stream):
         nonlocal unmodelled, oracle_cases
         pay = Payloads(r)
-        depth = r.randint(1, maxdepth)
+        depth = r.choice([1] + list(range(2, maxdepth + 1)) * 3)
         if stream == "tree":
             sep = r.choice(SEPS)
-            node = gen_node(r, pay, depth, SAFE, top=True)
+            node = gen_node(r, pay, depth, SAFE, top=True, p_opt=r.choice([0.0, 0.3, 0.3, 0.6, 1.0]))
         else:
-            sep = r.choice(SEPS[2:] + ["."])
-            node = gen_node(r, pay, depth, POOL if r.random() < 0.6 else SAFE, top=True,
-                            p_empty=0.25 if r.random() < 0.5 else 0.0,
-                            p_optnode=0.2 if r.random() < 0.4 else 0.0)
+            depth = max(depth, 2)
+            mode = r.choice(["ambiguous", "ambiguous", "empty", "optnode", "mixed"])
+            sep = r.choice(SEPS[2:]) if mode == "ambiguous" else r.choice(SEPS)
+            pool = POOL if mode in ("ambiguous", "mixed") else SAFE
+            if mode == "ambiguous":
+                # segments ending / starting with a character of the separator
+                pool = SAFE[:6] + ["a" + sep[0], sep[-1] + "b", sep[0], sep[-1], "x" + sep[:1], ""]
+            node = gen_node(r, pay, depth, pool, top=True,
+                            p_empty=0.35 if mode in ("empty", "mixed") else 0.0,
+                            p_optnode=0.4 if mode in ("optnode", "mixed") else 0.0)
         if leaf_count(node) > 60:
             return
         ell = r.random() < 0.3
